@@ -20,7 +20,7 @@ RULE = ("one evaluation = one seeded interleaving (<= 50 operations) of per-leve
         "parent restricted to the parent's selection and the manual-exclusion invariant is checked against the model's "
         "per-child sets of excluded root events. non-trivial = >=1 edit and >=1 comparison; distinct = distinct event-log digests")
 STATE_MEASURE = "distinct (depth, bitmask of levels edited since last refresh, hidden-exclusion count>0, cache-populated bitmask) tuples; actor sequences are part of the digest"
-PROBES = ["hidden_exclusion_came_back", "hidden_exclusion_present", "cache_populated_before_refresh", "temp_feature_on_child",
+PROBES = ["nonscalar_index_array_access", "index_array_refused_like_parent", "hidden_exclusion_came_back", "hidden_exclusion_present", "cache_populated_before_refresh", "temp_feature_on_child",
           "temp_feature_on_root", "root_config_changed", "depth_3_or_more", "manual_on_mid_level", "ancestor_filter_changed_after_manual",
           "child_created_mid_history", "root_apply_without_refresh", "empty_child", "file_backed", "root_selection_moved_same_count"]
 COMPONENTS = {"real": ["dclab RTDC_Hierarchy, HierarchyFilter, index mappers, Child* feature wrappers", "dclab Filter, temporary features, ancillary features (time, area_um, deform)"],
@@ -391,6 +391,40 @@ class World:
             if got.shape != exp.shape or not np.array_equal(got, exp, equal_nan=exp.dtype.kind == "f"):
                 ctx.violation("C04.feature.value", f"level {j}: feature {f} differs from the parent's feature restricted to the selected events "
                                                    f"(shapes {got.shape} vs {exp.shape})", sig=sig)
+            elif f in ("image", "mask") and len(idx) >= 3:
+                # the same feature addressed with user-supplied index arrays (unsorted, repeated, ends fixed), masks and slices
+                self.cmp_count = getattr(self, "cmp_count", 0) + 1
+                pr = seeds.rng(seeds.H(ctx.seed, "index-access", self.cmp_count), "idx")
+                m = len(idx)
+                a0 = pr.randrange(0, m - 2)
+                a1 = pr.randrange(a0 + 2, m)
+                block = list(range(a0, a1 + 1))
+                mid = block[1:-1]
+                pr.shuffle(mid)
+                choices = {"ends_fixed_perm": [block[0]] + mid + [block[-1]],
+                           "repeats": sorted(pr.choice(block) for _ in range(len(block))),
+                           "ends_fixed_repeats": [block[0]] + [pr.choice(block) for _ in range(max(0, len(block) - 2))] + [block[-1]],
+                           "reversed": block[::-1],
+                           "random": [pr.randrange(m) for _ in range(pr.randint(1, 6))]}
+                how = pr.choice(sorted(choices))
+                ii = np.array(choices[how], dtype=int)
+                ctx.checked()
+                # (h5py refuses unsorted/repeated index lists: where the parent itself refuses the corresponding access,
+                #  the child may refuse too)
+                try:
+                    par[f][idx[ii]]
+                    parent_refuses = False
+                except TypeError:
+                    parent_refuses = True
+                with ctx.sut("C04.feature.read", sig=dict(sig, access=how), allow=(TypeError,) if parent_refuses else None) as s_:
+                    got_i = np.asarray(ch[f][ii])
+                if s_.exc is not None:
+                    ctx.probe("index_array_refused_like_parent")
+                    continue
+                if got_i.shape != exp[ii].shape or not np.array_equal(got_i, exp[ii]):
+                    ctx.violation("C04.feature.value", f"level {j}: {f}[{ii.tolist()}] ({how}) differs from the same selection of the child's events",
+                                  sig=dict(sig, access=how))
+                ctx.probe("nonscalar_index_array_access")
         # the root's own data against the generator's arrays for the features the model owns
         if j == 1:
             for f in ("tmp_c04",):
